@@ -29,4 +29,190 @@ def handle(cmd, args):
         r = conv.get_lemma_by_name(args[1]).proof
         labels = [r.labels[i] for i in sorted(r.labels)]
         return '(proof (labels %s) (steps %s))' % (' '.join(labels), ' '.join(map(str, r.applied_lemmas)))
+    if cmd == 'mmtranslate':
+        return mmtranslate(args)
+    if cmd == 'mmast':
+        return mmast(args)
+    if cmd == 'mmslices':
+        return mmslices(args)
     return None
+
+
+def mmtranslate(args):
+    """the body of translate.main on a database given as hex source: returns the three files, or the exception"""
+    import gc
+    import shutil
+    import tempfile
+    from pathlib import Path
+    from proof_generation.interpreter import ExecutionPhase
+    from proof_generation.metamath import translate as T
+    from proof_generation.metamath.converter.converter import MetamathConverter
+    from proof_generation.metamath.converter.representation import AxiomWithAntecedents
+    from proof_generation.metamath.parser import parse_database
+    from proof_generation.proof import ProofExp
+    src = bytes.fromhex(args[0]).decode('utf-8')
+    target = args[1]
+    try:
+        converter = MetamathConverter(parse_database(src))
+    except RecursionError:
+        raise
+    except Exception as e:   # noqa
+        return '(raise convert %s)' % type(e).__name__
+    extracted_axioms = []
+    for axiom_name in converter.exported_axioms:
+        axiom = converter.get_axiom_by_name(axiom_name)
+        if isinstance(axiom, AxiomWithAntecedents):
+            extracted_axioms.append(T.convert_to_implication(axiom.antecedents, axiom.pattern))
+            continue
+        extracted_axioms.append(axiom.pattern)
+    extracted_claims = [converter.get_lemma_by_name(lemma_name).pattern for lemma_name in converter.lemmas]
+
+    class TranslatedProofSkeleton(ProofExp):
+        def __init__(self):
+            super().__init__(axioms=extracted_axioms, claims=extracted_claims)
+
+        def execute_proofs_phase(self, interpreter):
+            assert interpreter.phase == ExecutionPhase.Proof
+            T.exec_proof(converter, target, self, interpreter)
+    mode = args[2] if len(args) > 2 else 'opt'
+    if mode == 'memo':
+        # the memoisation suggestions of the counting pre-pass (what `--optimize` feeds to MemoizingInterpreter)
+        import pyconv
+        from vlib import sx
+        from proof_generation.claim import Claim
+        from proof_generation.counting_interpreter import CountingInterpreter
+        try:
+            sk = TranslatedProofSkeleton()
+            analyzer = CountingInterpreter(ExecutionPhase.Gamma, [Claim(c) for c in sk._claims])
+            sk.execute_full(analyzer)
+            S = analyzer.finalize()
+        except RecursionError:
+            raise
+        except Exception as e:   # noqa
+            return '(raise memo %s)' % type(e).__name__
+        items = sorted(sx.pat_to_s(pyconv.from_py(p, None, False)) for p in S)
+        return '(memo yes %s)' % ' '.join(items) if items else '(memo yes)'
+    d = tempfile.mkdtemp(prefix='pi2mm')
+    try:
+        sk = TranslatedProofSkeleton()
+        try:
+            if mode == 'plain':
+                sk.main(['', 'binary', d, 'm'])
+            else:
+                for _ in range(3):
+                    sk.main(['', '--optimize', 'binary', d, 'm'])
+        except RecursionError:
+            raise
+        except Exception as e:   # noqa
+            import traceback
+            tb = traceback.extract_tb(e.__traceback__)
+            return '(raise translate %s %s:%d)' % (type(e).__name__, tb[-1].name, tb[-1].lineno)
+        gc.collect()
+        out = []
+        for ext in ('.ml-gamma', '.ml-claim', '.ml-proof'):
+            out.append(open(str(Path(d) / 'm') + ext, 'rb').read().hex() or '-')
+        return '(ok %s %s %s)' % tuple(out)
+    finally:
+        shutil.rmtree(d, ignore_errors=True)
+
+
+# ---- AST <-> protocol (strings travel as h<hex>) --------------------------------------------------------
+
+def hx(s):
+    return 'h' + s.encode('utf-8').hex()
+
+
+def term_sx(t):
+    from proof_generation.metamath.ast import Application, Metavariable
+    if isinstance(t, Metavariable):
+        return '(mv %s)' % hx(t.name)
+    assert isinstance(t, Application)
+    return '(app %s)' % ' '.join([hx(t.symbol)] + [term_sx(a) for a in t.subterms])
+
+
+def stmt_sx(s):
+    from proof_generation.metamath import ast as A
+    if isinstance(s, A.ConstantStatement):
+        return '(c (%s))' % ' '.join(hx(c) for c in s.constants)
+    if isinstance(s, A.VariableStatement):
+        return '(v (%s))' % ' '.join(hx(v.name) for v in s.metavariables)
+    if isinstance(s, A.DisjointStatement):
+        return '(d (%s))' % ' '.join(hx(v.name) for v in s.metavariables)
+    if isinstance(s, A.FloatingStatement):
+        assert s.terms[0].symbol == s.typecode and s.terms[1].name == s.metavariable and not s.terms[0].subterms
+        return '(f %s %s %s)' % (hx(s.label), hx(s.typecode), hx(s.metavariable))
+    if isinstance(s, A.EssentialStatement):
+        return '(e %s (%s))' % (hx(s.label), ' '.join(term_sx(t) for t in s.terms))
+    if isinstance(s, A.AxiomaticStatement):
+        return '(a %s (%s))' % (hx(s.label), ' '.join(term_sx(t) for t in s.terms))
+    if isinstance(s, A.ProvableStatement):
+        assert s.proof is not None
+        return '(p %s (%s) (%s))' % (hx(s.label), ' '.join(term_sx(t) for t in s.terms), ' '.join(hx(x) for x in s.proof.split()))
+    if isinstance(s, A.Block):
+        return '(block %s)' % ' '.join(stmt_sx(x) for x in s.statements) if s.statements else '(block)'
+    raise ValueError(type(s))
+
+
+def db_sx(db):
+    return '(mdb %s)' % ' '.join(stmt_sx(s) for s in db.statements) if db.statements else '(mdb)'
+
+
+def mmast(args):
+    """real parse_database, Encoder.encode_string, and parse again: (ok <ast> h<printed> <same-after-reparse>)"""
+    from proof_generation.metamath.ast import Encoder
+    from proof_generation.metamath.parser import parse_database
+    src = bytes.fromhex(args[0]).decode('utf-8') if args[0] != '-' else ''
+    try:
+        db = parse_database(src)
+    except RecursionError:
+        raise
+    except Exception as e:   # noqa
+        return '(raise parse %s)' % type(e).__name__
+    text = Encoder.encode_string(db)
+    try:
+        again = parse_database(text)
+        same = 'true' if again == db else 'false'
+    except RecursionError:
+        raise
+    except Exception as e:   # noqa
+        same = 'raise-' + type(e).__name__
+    return '(ok %s %s %s)' % (db_sx(db), hx(text), same)
+
+
+def mmslices(args):
+    """the body of metamath_extract_slice.main for the given targets: dependency graph, transitive closure, syntax
+    dependencies, slices (each as AST and as printed text, re-parsed with the real parser)"""
+    from proof_generation.metamath import metamath_extract_slice as S
+    from proof_generation.metamath.ast import Encoder
+    from proof_generation.metamath.parser import parse_database
+    src = bytes.fromhex(args[0]).decode('utf-8')
+    targets = [bytes.fromhex(a[1:]).decode() for a in args[1]]
+    db = parse_database(src)
+    try:
+        deps = S.dependency_graph(db)
+        include = S.transitive_closure(deps, list(targets))
+        syntax_deps = S.syntax_dependencies(db)
+    except RecursionError:
+        raise
+    except Exception as e:   # noqa
+        return '(raise deps %s)' % type(e).__name__
+    head = '(deps %s) (%s)' % (' '.join('(%s (%s))' % (hx(k), ' '.join(hx(x) for x in v)) for k, v in syntax_deps.items()),
+                             ' '.join(hx(x) for x in sorted(include)))
+    try:
+        slices = list(S.slice_database(db, syntax_deps, include=include, exclude=set()))
+    except RecursionError:
+        raise
+    except Exception as e:   # noqa
+        return '(raise slice %s %s)' % (type(e).__name__, head)
+    out = []
+    for label, sl in slices:
+        text = Encoder.encode_string(sl)
+        try:
+            again = parse_database(text)
+            same = 'true' if again == sl else 'false'
+        except RecursionError:
+            raise
+        except Exception as e:   # noqa
+            same = 'raise-' + type(e).__name__
+        out.append('(%s %s %s %s)' % (hx(label), db_sx(sl), hx(text), same))
+    return '(ok %s (slices %s))' % (head, ' '.join(out))
